@@ -79,6 +79,17 @@ CHECKS.update({
     technique='exhaustive decision-table grid with property-based values + text round trip'),
 })
 
+CHECKS.update({
+ 'C16': dict(level='exploration', design='3/C16',
+    text='Generated histories of set/get/in/del/pop/setdefault/update/iterate/copy/deepcopy operations (item, attribute, method and chained forms; leading dots, .. back-tracking, indexed list elements) on dotdict and up to two copies, compared after every step with a nested dict/list reference model using an independently written path resolver; plus a bounded exhaustive enumeration of dotted paths over a fixed tree. Exploration (exhaustive only within the enumeration bounds).',
+    note='Trusted: CPython, Hypothesis, the reference model in vp/checks/c16.py. Failure classes involving lists/strings/indexes and a few documented not-implemented operations are accepted either way (see assumptions).',
+    technique='model-based property testing of operation histories + bounded exhaustive path enumeration'),
+ 'C20': dict(level='exploration', design='3/C20',
+    text='Recursive generated values (type-exact round trip through dump/parse, with tails), message streams in every chunking fed to tnet_machine exactly as tnet_from feeds it and through the real tnet_from, and raw frames judged by a 40-line independent reference parser (differential tnetstrings.parse vs. tnet_machine); deterministic sub-spaces: every cut position for a corpus, all ordered pairs back to back, a size ladder across every digit-count boundary of the length prefix; atheris coverage-guided stage on the raw clause in the thorough tier. Exploration.',
+    note='Trusted: CPython, Hypothesis, atheris (thorough, optional), the reference parser in vp/checks/c20.py.',
+    technique='round-trip and differential property-based testing, exhaustive chunking of a corpus, coverage-guided fuzzing (thorough)'),
+})
+
 PENDING = {}
 
 def main():
